@@ -3,12 +3,340 @@ import TemplVerif.Model.Url
 namespace TemplVerif.Proofs.Url
 open TemplVerif TemplVerif.Url
 
+/-! ### Pinned tables -/
+
+theorem schemes_eq : Generated.urlSchemes = Whatwg.allowedSchemes := by decide
+theorem failedURL_eq : Generated.failedURL = Whatwg.failedURL := by decide
+
+/-! ### Byte facts -/
+
+/-- Everything we need to know about a lower-case ASCII letter `c`. -/
+def letterOK (c : UInt8) : Bool :=
+  Whatwg.isAlpha c && Whatwg.lower c == c && Whatwg.isAlpha (c - 32) && Whatwg.lower (c - 32) == c &&
+    asciiUpper c == c - 32 && asciiLower c == c
+
+theorem letterOK_aux : ∀ n : Nat, n < 26 → letterOK (UInt8.ofNat (97 + n)) = true := by
+  decide
+
+theorem letterOK_of_range (c : UInt8) (h1 : 97 ≤ c) (h2 : c ≤ 122) : letterOK c = true := by
+  have h1' := UInt8.le_iff_toNat_le.mp h1
+  have h2' := UInt8.le_iff_toNat_le.mp h2
+  simp at h1' h2'
+  have := letterOK_aux (c.toNat - 97) (by omega)
+  have e : 97 + (c.toNat - 97) = c.toNat := by omega
+  rw [e] at this
+  simpa using this
+
+def isLowerLetter (c : UInt8) : Bool := 97 ≤ c && c ≤ 122
+
+/-- A byte that folds to a lower-case ASCII letter is an ASCII letter whose lower-case form is that letter. -/
+theorem runeFoldsTo_letter (b c : UInt8) (hc : isLowerLetter c = true)
+    (h : runeFoldsTo b.toNat c = true) : Whatwg.isAlpha b = true ∧ Whatwg.lower b = c := by
+  simp only [isLowerLetter, Bool.and_eq_true, decide_eq_true_eq] at hc
+  have ok := letterOK_of_range c hc.1 hc.2
+  simp only [letterOK, Bool.and_eq_true, beq_iff_eq] at ok
+  obtain ⟨⟨⟨⟨⟨o1, o2⟩, o3⟩, o4⟩, o5⟩, o6⟩ := ok
+  have hb := UInt8.toNat_lt b
+  simp only [runeFoldsTo, Bool.or_eq_true, Bool.and_eq_true, beq_iff_eq] at h
+  rcases h with (((h | h) | h) | h) | h
+  · have : b = c := UInt8.toNat_inj.mp h
+    subst this; exact ⟨o1, o2⟩
+  · have : b = asciiUpper c := UInt8.toNat_inj.mp h
+    rw [this, o5]; exact ⟨o3, o4⟩
+  · have : b = asciiLower c := UInt8.toNat_inj.mp h
+    rw [this, o6]; exact ⟨o1, o2⟩
+  · omega
+  · omega
+
+/-! ### `indexOf` -/
+
+theorem indexOf_none {c : UInt8} {s : Bytes} (h : indexOf c s = none) : c ∉ s := by
+  induction s with
+  | nil => simp
+  | cons b rest ih =>
+    simp only [indexOf] at h
+    split at h
+    · cases h
+    · rename_i hbc
+      simp only [Option.map_eq_none_iff] at h
+      simp only [List.mem_cons, not_or]
+      exact ⟨fun e => hbc e.symm, ih h⟩
+
+theorem indexOf_some {c : UInt8} {s : Bytes} {i : Nat} (h : indexOf c s = some i) :
+    ∃ rest, s = s.take i ++ c :: rest ∧ c ∉ s.take i := by
+  induction s generalizing i with
+  | nil => simp [indexOf] at h
+  | cons b rest ih =>
+    simp only [indexOf] at h
+    split at h
+    · rename_i hbc
+      cases h
+      exact ⟨rest, by simp [hbc], by simp⟩
+    · rename_i hbc
+      simp only [Option.map_eq_some_iff] at h
+      obtain ⟨j, hj, rfl⟩ := h
+      obtain ⟨r, hr1, hr2⟩ := ih hj
+      refine ⟨r, ?_, ?_⟩
+      · simp only [List.take_succ_cons, List.cons_append]
+        rw [← hr1]
+      · simp only [List.take_succ_cons, List.mem_cons, not_or]
+        exact ⟨fun e => hbc e.symm, hr2⟩
+
+theorem indexOf_isSome {c : UInt8} {s : Bytes} (h : (indexOf c s).isSome = true) : c ∈ s := by
+  induction s with
+  | nil => simp [indexOf] at h
+  | cons b rest ih =>
+    simp only [indexOf] at h
+    split at h
+    · rename_i hbc; simp [hbc]
+    · simp only [Option.isSome_map] at h
+      exact List.mem_cons_of_mem _ (ih h)
+
+/-! ### The browser side -/
+
+theorem mem_preprocess {b : UInt8} {s : Bytes} (h : b ∈ Whatwg.preprocess s) : b ∈ s := by
+  simp only [Whatwg.preprocess, List.mem_filter, List.mem_reverse] at h
+  exact (List.dropWhile_sublist _).mem ((List.dropWhile_sublist _).mem h.1 |> List.mem_reverse.mp)
+
+theorem schemeState_no_colon (acc : Bytes) (l : Bytes) (h : (58 : UInt8) ∉ l) :
+    Whatwg.schemeState acc l = none := by
+  induction l generalizing acc with
+  | nil => rfl
+  | cons b rest ih =>
+    simp only [List.mem_cons, not_or] at h
+    simp only [Whatwg.schemeState]
+    split
+    · exact ih _ h.2
+    · split
+      · rename_i hb; simp at hb; exact absurd hb.symm h.1
+      · rfl
+
+/-- A byte that survives preprocessing and stops the scheme state without being ':'. -/
+def isBad (b : UInt8) : Bool := !Whatwg.isC0OrSpace b && !Whatwg.isSchemeChar b && b != 58
+
+theorem schemeState_bad (acc x : Bytes) (b : UInt8) (y : Bytes) (hx : (58 : UInt8) ∉ x)
+    (hb : isBad b = true) : Whatwg.schemeState acc (x ++ b :: y) = none := by
+  induction x generalizing acc with
+  | nil =>
+    simp only [isBad, Bool.and_eq_true, Bool.not_eq_true', bne_iff_ne] at hb
+    simp [Whatwg.schemeState, hb.1.2, hb.2]
+  | cons a rest ih =>
+    simp only [List.mem_cons, not_or] at hx
+    simp only [List.cons_append, Whatwg.schemeState]
+    split
+    · exact ih _ hx.2
+    · split
+      · rename_i ha; simp at ha; exact absurd ha.symm hx.1
+      · rfl
+
+theorem schemeState_good (acc p rest : Bytes) (hp : p.all Whatwg.isSchemeChar = true) :
+    Whatwg.schemeState acc (p ++ 58 :: rest) = some (acc ++ p.map Whatwg.lower) := by
+  induction p generalizing acc with
+  | nil => simp [Whatwg.schemeState, Whatwg.isSchemeChar, Whatwg.isAlpha]
+  | cons a p ih =>
+    simp only [List.all_cons, Bool.and_eq_true] at hp
+    simp only [List.cons_append, Whatwg.schemeState, hp.1, if_true]
+    rw [ih _ hp.2]
+    simp
+
+theorem dropWhile_append_keep (p : UInt8 → Bool) (u : Bytes) (c : UInt8) (v : Bytes)
+    (hc : p c = false) : ∃ u', (∀ z ∈ u', z ∈ u) ∧ List.dropWhile p (u ++ c :: v) = u' ++ c :: v := by
+  induction u with
+  | nil => exact ⟨[], by simp, by simp [hc]⟩
+  | cons a u ih =>
+    by_cases ha : p a = true
+    · obtain ⟨u', h1, h2⟩ := ih
+      refine ⟨u', fun z hz => List.mem_cons_of_mem _ (h1 z hz), ?_⟩
+      simp [ha, h2]
+    · refine ⟨a :: u, fun z hz => hz, ?_⟩
+      simp [ha]
+
+/-- Shape of the preprocessed string around a byte that is not stripped. -/
+theorem preprocess_split (x : Bytes) (c : UInt8) (y : Bytes) (hc : Whatwg.isC0OrSpace c = false) :
+    ∃ x' y', (∀ z ∈ x', z ∈ x) ∧ Whatwg.preprocess (x ++ c :: y) = x' ++ c :: y' := by
+  have hct : Whatwg.isTabOrNewline c = false := by
+    simp only [Whatwg.isC0OrSpace, decide_eq_false_iff_not] at hc
+    simp only [Whatwg.isTabOrNewline, Bool.or_eq_false_iff, beq_eq_false_iff_ne]
+    refine ⟨⟨?_, ?_⟩, ?_⟩ <;> (intro e; subst e; exact hc (by decide))
+  obtain ⟨x1, hx1, e1⟩ := dropWhile_append_keep Whatwg.isC0OrSpace x c y hc
+  obtain ⟨y1, _, e2⟩ := dropWhile_append_keep Whatwg.isC0OrSpace y.reverse c x1.reverse hc
+  refine ⟨x1.filter (fun b => !Whatwg.isTabOrNewline b), y1.reverse.filter (fun b => !Whatwg.isTabOrNewline b), ?_, ?_⟩
+  · intro z hz
+    exact hx1 z (List.mem_filter.mp hz).1
+  · simp only [Whatwg.preprocess, e1]
+    have : (x1 ++ c :: y).reverse = y.reverse ++ c :: x1.reverse := by simp
+    rw [this, e2]
+    simp [hct]
+
+theorem alpha_facts (b : UInt8) (h : Whatwg.isAlpha b = true) :
+    Whatwg.isC0OrSpace b = false ∧ Whatwg.isTabOrNewline b = false ∧ Whatwg.isSchemeChar b = true := by
+  refine ⟨?_, ?_, by simp [Whatwg.isSchemeChar, h]⟩
+  · simp only [Whatwg.isAlpha, Bool.or_eq_true, Bool.and_eq_true, decide_eq_true_eq, UInt8.le_iff_toNat_le] at h
+    simp only [Whatwg.isC0OrSpace, decide_eq_false_iff_not, UInt8.le_iff_toNat_le]
+    simp at h ⊢
+    omega
+  · simp only [Whatwg.isAlpha, Bool.or_eq_true, Bool.and_eq_true, decide_eq_true_eq, UInt8.le_iff_toNat_le] at h
+    simp only [Whatwg.isTabOrNewline, Bool.or_eq_false_iff, beq_eq_false_iff_ne]
+    simp at h
+    refine ⟨⟨?_, ?_⟩, ?_⟩ <;> (intro e; subst e; simp at h)
+
+theorem isBad_of_nonascii (b : UInt8) (h : 0x80 ≤ b) : isBad b = true := by
+  simp only [UInt8.le_iff_toNat_le] at h
+  simp at h
+  simp only [isBad, Whatwg.isC0OrSpace, Whatwg.isSchemeChar, Whatwg.isAlpha, Bool.and_eq_true,
+    Bool.not_eq_true', decide_eq_false_iff_not, Bool.or_eq_false_iff, Bool.and_eq_false_iff,
+    bne_iff_ne, beq_eq_false_iff_ne, UInt8.le_iff_toNat_le, ne_eq, ← UInt8.toNat_inj]
+  simp
+  omega
+
+/-- Preprocessing leaves a prefix of letters alone (when followed by ':'). -/
+theorem preprocess_alpha (a : UInt8) (p rest : Bytes) (ha : Whatwg.isAlpha a = true)
+    (hp : p.all Whatwg.isAlpha = true) :
+    ∃ rest', Whatwg.preprocess (a :: p ++ 58 :: rest) = a :: p ++ 58 :: rest' := by
+  have h58 : Whatwg.isC0OrSpace 58 = false := by decide
+  have h58t : Whatwg.isTabOrNewline 58 = false := by decide
+  obtain ⟨y1, _, e2⟩ := dropWhile_append_keep Whatwg.isC0OrSpace rest.reverse 58 (a :: p).reverse h58
+  refine ⟨y1.reverse.filter (fun b => !Whatwg.isTabOrNewline b), ?_⟩
+  have e1 : List.dropWhile Whatwg.isC0OrSpace (a :: p ++ 58 :: rest) = a :: p ++ 58 :: rest := by
+    simp [(alpha_facts a ha).1]
+  have e3 : (a :: p ++ 58 :: rest).reverse = rest.reverse ++ 58 :: (a :: p).reverse := by simp
+  have e4 : p.filter (fun b => !Whatwg.isTabOrNewline b) = p := by
+    rw [List.filter_eq_self]
+    intro z hz
+    simp [(alpha_facts z (List.all_eq_true.mp hp z hz)).2.1]
+  have ha' := (alpha_facts a ha).2.1
+  simp only [Whatwg.preprocess]
+  rw [e1, e3, e2]
+  simp [h58t, ha', e4]
+
+theorem scheme_of_alpha (a : UInt8) (p rest : Bytes) (ha : Whatwg.isAlpha a = true)
+    (hp : p.all Whatwg.isAlpha = true) :
+    Whatwg.scheme (a :: p ++ 58 :: rest) = some ((a :: p).map Whatwg.lower) := by
+  obtain ⟨rest', e⟩ := preprocess_alpha a p rest ha hp
+  rw [Whatwg.scheme, e]
+  simp only [List.cons_append, ha, if_true]
+  rw [schemeState_good]
+  · simp
+  · exact List.all_eq_true.mpr fun z hz => (alpha_facts z (List.all_eq_true.mp hp z hz)).2.2
+
+/-! ### `EqualFold` against a lower-case ASCII word -/
+
+theorem equalFoldAux_letters (t : Bytes) (ht : t.all isLowerLetter = true) (fuel : Nat) (pre : Bytes)
+    (h : equalFoldAux fuel pre t = true) :
+    (∃ b ∈ pre, (0x80 : UInt8) ≤ b) ∨ (pre.all Whatwg.isAlpha = true ∧ pre.map Whatwg.lower = t) := by
+  induction t generalizing fuel pre with
+  | nil =>
+    cases pre with
+    | nil => right; simp
+    | cons b pre => simp [equalFoldAux] at h
+  | cons c t ih =>
+    simp only [List.all_cons, Bool.and_eq_true] at ht
+    cases pre with
+    | nil => simp [equalFoldAux] at h
+    | cons b pre =>
+      cases fuel with
+      | zero => simp [equalFoldAux] at h
+      | succ fuel =>
+        by_cases hb : b < 0x80
+        · have hd : Utf8.decodeRune (b :: pre) = (b.toNat, 1) := by simp [Utf8.decodeRune, hb]
+          simp only [equalFoldAux, hd, Bool.and_eq_true] at h
+          have h2 : equalFoldAux fuel pre t = true := by simpa using h.2
+          obtain ⟨f1, f2⟩ := runeFoldsTo_letter b c ht.1 h.1
+          rcases ih ht.2 fuel pre h2 with ⟨z, hz, hz'⟩ | ⟨g1, g2⟩
+          · exact Or.inl ⟨z, List.mem_cons_of_mem _ hz, hz'⟩
+          · right; simp [f1, f2, g1, g2]
+        · left
+          exact ⟨b, by simp, UInt8.not_lt.mp hb⟩
+
+theorem schemes_lower : ∀ t ∈ Generated.urlSchemes, t.all isLowerLetter = true ∧ t ≠ [] := by
+  decide
+
+theorem scheme_none_of_bad (x : Bytes) (b : UInt8) (y : Bytes) (hx : (58 : UInt8) ∉ x)
+    (hb : isBad b = true) : Whatwg.scheme (x ++ b :: y) = none := by
+  have hb' := hb
+  simp only [isBad, Bool.and_eq_true, Bool.not_eq_true', bne_iff_ne] at hb'
+  obtain ⟨x', y', hx', e⟩ := preprocess_split x b y hb'.1.1
+  have hx'' : (58 : UInt8) ∉ x' := fun h => hx (hx' _ h)
+  simp only [Whatwg.scheme, e]
+  cases x' with
+  | nil =>
+    have : Whatwg.isAlpha b = false := by
+      have := hb'.1.2
+      simp only [Whatwg.isSchemeChar, Bool.or_eq_false_iff] at this
+      exact this.1.1.1.1
+    simp [this]
+  | cons a x' =>
+    simp only [List.mem_cons, not_or] at hx''
+    simp only [List.cons_append]
+    split
+    · exact schemeState_bad _ _ _ _ hx''.2 hb
+    · rfl
+
+theorem scheme_none_of_no_colon (s : Bytes) (h : (58 : UInt8) ∉ s) : Whatwg.scheme s = none := by
+  have h' : (58 : UInt8) ∉ Whatwg.preprocess s := fun hm => h (mem_preprocess hm)
+  simp only [Whatwg.scheme]
+  split
+  · rfl
+  · rename_i b rest e
+    rw [e] at h'
+    simp only [List.mem_cons, not_or] at h'
+    split
+    · exact schemeState_no_colon _ _ h'.2
+    · rfl
+
+/-! ### The two lemmas cited by Props/C04 -/
+
 /-- If the sanitiser returns its input, a browser sees no scheme, an allowed one, or the input is the failure URL itself. -/
 theorem sanitize_fixed (s : Bytes) (h : sanitize s = s) :
     Whatwg.scheme s = none ∨ (∃ a ∈ Whatwg.allowedSchemes, Whatwg.scheme s = some a) ∨ s = Whatwg.failedURL := by
-  sorry
+  unfold sanitize at h
+  split at h
+  · rename_i hi
+    exact Or.inl (scheme_none_of_no_colon s (indexOf_none hi))
+  · rename_i i hi
+    obtain ⟨rest, hs, hni⟩ := indexOf_some hi
+    generalize s.take i = pre at hs hni h
+    simp only at h
+    split at h
+    · rename_i h47
+      left
+      obtain ⟨x, y, e⟩ := List.append_of_mem (indexOf_isSome h47)
+      have hx : (58 : UInt8) ∉ x := fun hm => hni (by rw [e]; simp [hm])
+      have : s = x ++ 47 :: (y ++ 58 :: rest) := by rw [hs, e]; simp
+      rw [this]
+      exact scheme_none_of_bad x 47 _ hx (by decide)
+    · split at h
+      · rename_i _ hany
+        obtain ⟨t, htm, hte⟩ := List.any_eq_true.mp hany
+        obtain ⟨htl, htne⟩ := schemes_lower t htm
+        rcases equalFoldAux_letters t htl _ pre hte with ⟨b, hb, hb80⟩ | ⟨g1, g2⟩
+        · left
+          obtain ⟨x, y, e⟩ := List.append_of_mem hb
+          have hx : (58 : UInt8) ∉ x := fun hm => hni (by rw [e]; simp [hm])
+          have : s = x ++ b :: (y ++ 58 :: rest) := by rw [hs, e]; simp
+          rw [this]
+          exact scheme_none_of_bad x b _ hx (isBad_of_nonascii b hb80)
+        · right; left
+          refine ⟨t, schemes_eq ▸ htm, ?_⟩
+          cases pre with
+          | nil => simp at g2; exact absurd g2 htne
+          | cons a p =>
+            simp only [List.all_cons, Bool.and_eq_true] at g1
+            rw [hs, scheme_of_alpha a p rest g1.1 g1.2, g2]
+      · right; right
+        rw [← failedURL_eq]; exact h.symm
 
 theorem sanitize_else (s : Bytes) (h : sanitize s ≠ s) : sanitize s = Whatwg.failedURL := by
-  sorry
+  unfold sanitize at h ⊢
+  split
+  · rename_i hi; simp [hi] at h
+  · rename_i i hi
+    simp only [hi] at h
+    simp only at h ⊢
+    split
+    · rename_i h1; simp [h1] at h
+    · split
+      · rename_i _ h2; simp [h2] at h
+      · exact failedURL_eq
 
 end TemplVerif.Proofs.Url
